@@ -122,7 +122,9 @@ def coq_project_files():
     for d in ("theories", "gen", "props"):
         base = os.path.join(COQ, d)
         for root, _dirs, files in os.walk(base):
-            if os.path.basename(root) in ("cases", "ob") or os.sep + "ob" + os.sep in root + os.sep:
+            if d == "gen" and os.path.abspath(root) != os.path.abspath(base):
+                continue      # gen/ob, gen/mo, gen/cf, gen/oc: generated obligations, compiled by lib/obrun.py from their current text
+            if os.path.basename(root) in ("cases", "ob"):
                 continue
             for fn in sorted(files):
                 if fn.endswith(".v"):
